@@ -95,6 +95,9 @@ type shared18 struct {
 	// documents were written from
 	svgNames []string
 	svgWant  [][]byte
+	// stat is a conversion summary that every pipeline adds to an accumulator of
+	// its own (its lists have spare capacity: they grew by append)
+	stat mdicons.Statistics
 }
 
 func hashOps18(ops []rec.Op) [32]byte {
@@ -250,10 +253,22 @@ func task18(kind int, in int, sh *shared18, variant uint64) [32]byte {
 		k := int(variant) % len(sh.svgNames)
 		var out bytes.Buffer
 		_, err := mdicons.ParseFile(sh.svgNames[k], "action", "verif", 24, 48, &out)
+		if sh.svgWant[k] == nil {
+			// more distinct opacities than there are registers for: no graphic, the
+			// same outcome every time
+			if err == nil {
+				atomic.AddInt64(&c18FileMismatch, 1)
+			}
+			return sha256.Sum256([]byte(fmt.Sprint(out.String(), err)))
+		}
 		if got, ok := c20Literal(out.String()); err != nil || !ok || !bytes.Equal(got, sh.svgWant[k]) {
 			atomic.AddInt64(&c18FileMismatch, 1)
 		}
-		return sha256.Sum256(out.Bytes())
+		// the conversion's summary joins the shared one in an accumulator of this pipeline's own
+		var total mdicons.Statistics
+		total = total.Add(sh.stat)
+		total = total.Add(mdicons.Statistics{VarNames: []string{fmt.Sprint("own", variant)}, Failures: []string{"f"}, TotalFiles: 1})
+		return sha256.Sum256([]byte(fmt.Sprint(out.String(), total)))
 	default:
 		var e encode.Encoder
 		e.Reset(ivg.DefaultViewBox, ivg.DefaultPalette)
@@ -288,7 +303,7 @@ func sharedHash18(sh *shared18) [32]byte {
 		h.Write(b)
 	}
 	h.Write([]byte(fmt.Sprintf("%+v %v", *sh.grad, sh.gradStops)))
-	h.Write([]byte(fmt.Sprint(*sh.pal, *sh.rawPal, *sh.rawReg, sh.stops, sh.stopsUnordered, sh.transforms, sh.factors[:cap(sh.factors)], sh.paths, sh.mdPath.D, sh.circ)))
+	h.Write([]byte(fmt.Sprint(*sh.pal, *sh.rawPal, *sh.rawReg, sh.stops, sh.stopsUnordered, sh.transforms, sh.factors[:cap(sh.factors)], sh.paths, sh.mdPath.D, sh.circ, sh.stat.VarNames[:cap(sh.stat.VarNames)], sh.stat.Failures[:cap(sh.stat.Failures)], sh.stat)))
 	for _, p := range []*mdicons.Path{sh.mdPath, sh.mdPathFill} {
 		h.Write([]byte(fmt.Sprint(p.D, p.Fill, p.FillOpacity == nil, p.Opacity == nil)))
 		if p.FillOpacity != nil {
@@ -318,7 +333,7 @@ var c18FileMismatch int64
 // positions, with and without circles.
 func c18Documents(r *run.Rng, sh *shared18, tag string) {
 	ops := []float32{0.3, 0.54, 0.87}
-	for k := 0; k < 5; k++ {
+	for k := 0; k < 6; k++ {
 		var paths []mdicons.Path
 		var circles []mdicons.Circle
 		for i := 0; i < 3; i++ {
@@ -343,6 +358,14 @@ func c18Documents(r *run.Rng, sh *shared18, tag string) {
 		if k == 4 {
 			paths = paths[:1]
 			circles = []mdicons.Circle{{Cx: 6, Cy: 7, R: 2}, {Cx: 15, Cy: 9.5, R: 1.25}}
+		}
+		if k == 5 {
+			// seven distinct opacities: one more than there are registers for
+			paths = nil
+			for _, o := range []float32{0.1, 0.2, 0.3, 0.4, 0.5, 0.6, 0.7} {
+				o := o
+				paths = append(paths, mdicons.Path{D: "M2 3h4v5H2z", Opacity: &o})
+			}
 		}
 		var doc strings.Builder
 		f := func(v float32) string { return strconv.FormatFloat(float64(v), 'g', -1, 32) }
@@ -377,11 +400,11 @@ func c18Documents(r *run.Rng, sh *shared18, tag string) {
 			pending = nil
 		}
 		want, err := enc.Bytes()
+		sh.svgNames = append(sh.svgNames, name)
 		if err != nil {
-			os.Remove(name)
+			sh.svgWant = append(sh.svgWant, nil)
 			continue
 		}
-		sh.svgNames = append(sh.svgNames, name)
 		sh.svgWant = append(sh.svgWant, append([]byte(nil), want...))
 	}
 }
@@ -469,6 +492,7 @@ func c18Round(c *run.Ctx, idx uint64) {
 	sh.opts = append(sh.opts, decode.WithColorAt(2, color.RGBA{9, 8, 7, 0xff}), decode.WithColorAt(3, color.NRGBA{200, 100, 50, 0x80}), decode.WithPalette(pal), decode.WithColorAt(0, color.Gray{0x33}))
 
 	c18Documents(r, sh, fmt.Sprint(idx))
+	sh.stat = mdicons.Statistics{VarNames: append(make([]string, 0, 8), "ActionA", "ActionB", "ActionC"), Failures: append(make([]string, 0, 4), "x"), TotalFiles: 3, TotalIVGBytes: 300, TotalSVGBytes: 900}
 	defer func() {
 		for _, n := range sh.svgNames {
 			os.Remove(n)
